@@ -181,6 +181,26 @@ func tree(r *rand.Rand, dir string) (root string, files []string) {
 				f.Funcs = append(f.Funcs, gen.Func{Name: "Wide", Text: "func Wide(a int, b int) int {\n\tx := a&3 + 1\n\tm := b&3 + 1\n" + strings.Repeat("\tx = x + x*m\n", 8) + "\ts := 0\n\tfor i := x; i < x+4; i++ {\n\t\ts += i & 15\n\t}\n\treturn s\n}\n"})
 			}
 			if fi == 0 {
+				// loops in which one hoistable builtin call consumes the result of another that
+				// sits in a different block of the same loop: what is hoisted must not depend
+				// on the order in which the blocks of the loop are visited
+				for k := 0; k < 3; k++ {
+					f.Funcs = append(f.Funcs, gen.Func{Name: fmt.Sprintf("Chained%d", k), Text: fmt.Sprintf(`func Chained%d(a int, b int) int {
+	xs := make([]int, a&7+2)
+	s := 0
+	for i := 0; i < b&15; i++ {
+		n := len(xs)
+		if i&%d == 0 {
+			s += min(n, %d)
+		} else if i > 9 {
+			s -= max(cap(xs), n)
+		}
+		s += i
+	}
+	return s
+}
+`, k, k+1, 7+pi)})
+				}
 				for k := 0; k < 5; k++ {
 					f.Funcs = append(f.Funcs, gen.Function(r, fmt.Sprintf("U%d_%d", pi, k), gen.SigII, 3+r.Intn(5)))
 				}
